@@ -827,6 +827,84 @@ def classify_tall(case):
 
 
 # ---------------------------------------------------------------------------------------
+# empty sequences: a list-valued descriptor of length 0 -- an object-level list that happens to be
+# empty ("excluded runs: none"), or the per-item descriptors of an object that a no-match subset
+# reduced to zero elements along one axis -- comes back as an empty sequence (not as None / absent)
+
+EMPTY_AXES = {'rdms': ['rdm'], 'ds': ['obs', 'channel'], 'tds': ['obs', 'channel', 'time']}
+
+
+@st.composite
+def empty_case(draw):
+    kind = draw(st.sampled_from(['rdms', 'ds', 'tds']))
+    return {'kind': kind,
+            'mode': draw(st.sampled_from(['obj-desc', 'zero-axis'])),
+            'axis': draw(st.sampled_from(EMPTY_AXES[kind])),
+            'container': draw(gen.container),
+            'n': draw(st.tuples(st.integers(1, 3), st.integers(2, 4), st.integers(1, 3))),
+            'values': draw(gen.matrix(3, 36)),
+            'labels': draw(st.lists(st.sampled_from(ob.ASCII_POOL), min_size=4, max_size=4)),
+            'extra': draw(desc_dict(['session', 'note', 'flag'], typed_value())),
+            'fmt': draw(st.sampled_from(['hdf5', 'hdf5', 'hdf5', 'pkl'])),
+            'target': draw(st.sampled_from(['path', 'bytesio', 'file'])),
+            'explicit_type': draw(st.booleans())}
+
+
+def check_empty(case):
+    from rsatoolbox.rdm import RDMs
+    from rsatoolbox.data.dataset import Dataset, TemporalDataset
+    kind, mode, axis = case['kind'], case['mode'], case['axis']
+    n0, n1, n2 = case['n']
+    vals = np.array(case['values'], dtype=float)
+    lab = list(case['labels'])
+    desc = {k: ob.decode_value(v) for k, v in case['extra'].items()}
+    if mode == 'obj-desc':
+        desc['excluded'] = [] if case['container'] == 'list' else np.array([], dtype=int)
+    if kind == 'rdms':
+        n_pair = n1 * (n1 - 1) // 2
+        obj = core.lib(RDMs, vals[:n0, :n_pair].copy(), dissimilarity_measure='euclidean', descriptors=desc,
+                       rdm_descriptors={'sel': list(range(n0)), 'name': lab[:n0],
+                                        'arr': np.arange(n0) * 0.5},
+                       pattern_descriptors={'cond': lab[:n1]})
+        if mode == 'zero-axis':
+            obj = core.lib(obj.subset, 'sel', -1)
+            require(obj.n_rdm == 0, 'subset on an absent value kept %d rdms' % obj.n_rdm, 'harness')
+    else:
+        obs = {'sel': list(range(n0)), 'name': lab[:n0], 'arr': np.arange(n0) * 0.5}
+        ch = {'sel': list(range(n1)), 'roi': lab[:n1]}
+        if kind == 'ds':
+            obj = core.lib(Dataset, vals[:n0, :n1].copy(), descriptors=desc, obs_descriptors=obs,
+                           channel_descriptors=ch)
+        else:
+            obj = core.lib(TemporalDataset, vals[:n0, :n1 * n2].reshape(n0, n1, n2).copy(), descriptors=desc,
+                           obs_descriptors=obs, channel_descriptors=ch,
+                           time_descriptors={'sel': list(range(n2)), 'time': [0.25 * i for i in range(n2)]})
+        if mode == 'zero-axis':
+            obj = core.lib(getattr(obj, 'subset_' + axis), 'sel', -1)
+            ax = {'obs': 0, 'channel': 1, 'time': 2}[axis]
+            require(obj.measurements.shape[ax] == 0, 'subset on an absent value kept %d elements'
+                    % obj.measurements.shape[ax], 'harness')
+    ext = FMT_EXT[case['fmt']][0]
+    tgt = Target({'fmt': case['fmt'], 'target': case['target'], 'ext': ext,
+                  'explicit_type': case['explicit_type'], 'overwrite': False})
+    try:
+        if kind == 'rdms':
+            roundtrip_rdms(obj, tgt, 'empty-seq:rdms')
+        else:
+            roundtrip_dataset(obj, tgt, 'empty-seq:dataset')
+    finally:
+        tgt.close()
+
+
+def classify_empty(case):
+    labels = ['kind:' + case['kind'], 'mode:' + case['mode'], 'fmt:' + case['fmt'], 'target:' + case['target']]
+    if case['mode'] == 'zero-axis':
+        labels.append('axis:' + case['axis'])
+    else:
+        labels.append('container:' + case['container'])
+    return labels, True
+
+# ---------------------------------------------------------------------------------------
 # exhaustive grid: one fixed object of every kind x format x target x extension x flags
 
 GRID_RDMS = {'n_rdm': 2, 'n_cond': 3, 'dis': [[1.0, 2.0, 0.5], [0.25, 4.0, 3.0]], 'special': [[1, 'nan']],
@@ -939,6 +1017,10 @@ SUBCHECKS = [
     SubCheck('pkl_stream', stream_case(), check_stream, classify_stream, quick=120, thorough=1500,
              doc='two objects pickled one after the other into one open handle (optionally behind a '
                  'caller-written header) are read back in order from the position the caller set'),
+    SubCheck('empty_seq', empty_case(), check_empty, classify_empty, quick=80, thorough=1000,
+             doc='RDMs / Dataset / TemporalDataset holding a length-0 sequence: an empty object-level list '
+                 'or array descriptor, or every per-item descriptor along an axis that a no-match subset '
+                 'reduced to zero elements; the loaded value is an empty sequence again'),
     core.Enumeration('grid', enumerate_grid, check_grid, classify_grid,
                      doc='exhaustive: one fixed object of each of the four kinds (RDMs, Dataset, '
                          'TemporalDataset, Result) x file type x extension x target (path, BytesIO, open '
